@@ -105,4 +105,6 @@ def regex_to_smt(pattern, ignorecase=False):
     key = (pattern, ignorecase)
     if key not in _CACHE:
         _CACHE[key] = _cat(_conv(sre_parse.parse(pattern), ignorecase))
+        from .terms import register_re
+        register_re(_CACHE[key], ('(?i:%s)' % pattern) if ignorecase else pattern)
     return _CACHE[key]
